@@ -5,7 +5,7 @@
 From Verif Require Import Base.Bytes Model.Chain Model.GoText Model.Envelope Model.Eval Corr.EvalWire.
 From Verif Require Import Proofs.EvalLogKit Proofs.EvalLogInd Proofs.EvalLog Proofs.EvalLogOnce Proofs.EvalLogCorr.
 From Verif Require Import Proofs.EvalTotalSyntax Proofs.EvalTotalBound.
-From Verif Require Import Proofs.EvalLog2Ind Proofs.EvalLog2 Proofs.EvalLog2Valid Proofs.EvalLog2Names.
+From Verif Require Import Proofs.EvalLog2Ind Proofs.EvalLog2 Proofs.EvalLog2Valid Proofs.EvalLog2Names Proofs.EvalLogRootName.
 From Verif Require Corr.C05.
 
 (* [env_def W name d n dn]: during [eval_env W _ _ name d], the name [n] denotes the definition [dn] — the one
@@ -91,17 +91,18 @@ Theorem C05_unique_sites_b_sound : forall W name d,
   unique_sites_b W name d = true -> unique_provider_sites W name d.
 Proof. exact unique_sites_b_sound. Qed.
 
-(* ---- the clauses of Corr/C05.spec_fail, for an implementation log that matches the model's ----
-   (all clauses of the per-Open disjunction except the generator's own site table [c_sites]) *)
+(* ---- the clauses of Corr/C05.spec_other, for an implementation log that matches the model's ----
+   (all clauses of the per-Open disjunction except the generator's own site table [c_sites]); the root is neither ""
+   nor "<yaml>" ([C05.anonymous_name]: for "<yaml>" the model deviates from environment.go, see Properties/C05.v) *)
 Theorem C05_matched_open_oracle_clauses : forall fuel W name d lg p i r c,
-  name <> "" -> unique_provider_sites W name d ->
+  C05.anonymous_name name = false -> unique_provider_sites W name d ->
   log_matches (ob_log (run fuel W name d)) lg = true ->
   In (p, i, r, c) (C05.opens lg) ->
   x_has_unknown i = false
   /\ match alookup p (w_provs W) with Some pv => negb (C05.x_valid (pv_in pv) i) | None => true end = false
-  /\ negb (String.eqb r name) = false
+  /\ (forall cs, C05.c_name cs = name -> negb (C05.root_ok cs r c) = false)
   /\ negb (Nat.eqb (C05.count_str p (map (fun o : string * xval * string * string => fst (fst (fst o))) (C05.opens lg))) 1) = false.
-Proof. exact matched_open_oracle_clauses. Qed.
+Proof. exact matched_open_oracle_clauses_named. Qed.
 
 (* ---- examples ---- *)
 Definition C05x_prov : provider :=
